@@ -99,16 +99,23 @@ func (rd *c04Round) exec(worker int, behaviour string, gate <-chan struct{}, ctx
 			x.enter = rd.seq.Add(1)
 		}
 		defer func() { x.exit = rd.seq.Add(1) }()
+		// a cancelled function returns either its own error or, as I/O code does, the context's error
+		cancelErr := func() error {
+			if x.call%2 == 0 {
+				return exec.Context().Err()
+			}
+			return errE2
+		}
 		switch behaviour {
 		case "gate-ok", "gate-fail":
 			select {
 			case <-gate:
 			case <-exec.Canceled():
-				return 0, errE2
+				return 0, cancelErr()
 			}
 		case "block":
 			<-exec.Canceled()
-			return 0, errE2
+			return 0, cancelErr()
 		}
 		if behaviour == "fail" || behaviour == "gate-fail" {
 			return 0, errE1
